@@ -1014,6 +1014,10 @@ def check_single(ctx, n):
             cov = (0, DT_MAX - 1) if default else (a, b)
             s = ctx.rng.choice([a, b, a - 1, b + 1, a + 1, b - 1, a - 86400 * 10**6])
             e = s + ctx.rng.choice([1, 2, 10**6, 0, b - a + 1, b - a + 2])
+            if k < 6 and not default:
+                # directed, whatever the seed: the semi-open end exactly on the start of the coverage (the file is NOT in
+                # [s, t0)), one microsecond later (it is), the closed start exactly on the end of the coverage (it is)
+                s, e = [(a - 86400 * 10**6, a), (a - 1, a), (a - 86400 * 10**6, a + 1), (b, b + 1), (b + 1, b + 2), (a - 5, a)][k]
             fs = FileSet(str(p)) if default else FileSet(str(p), time_coverage=(to_dt(a), to_dt(b)))
             try:
                 got = [x.path for x in fs.find(to_dt(s), to_dt(e), no_files_error=False)]
